@@ -613,14 +613,30 @@ class Scen:
         elif os.path.isdir(full):
             shutil.rmtree(full)
 
+    def edit_tok(self, name: str, p: bytes, with_file=True):
+        """the model's named edit (Edit.*) for what the harness just did to the directory, checked against
+        the harness's own view of the result (paths, kinds, contents)."""
+        if with_file:
+            f = self.snapshot()[p]
+            self.tok(f"{name}:{hx(p)}:{f['kind']}{f['cid']}/{f['stat'][0]}/{f['stat'][1]}/{f['stat'][2]}/{f['res']}")
+        else:
+            self.tok(f"{name}:{hx(p)}")
+        snap = self.snapshot()
+        real_w = sorted(f"{hx(q)}={g['kind']}{g['cid']}" for q, g in snap.items())
+        self.tok("files", lambda o, real_w=real_w, name=name: self.cmp("edit " + name, ",".join(sorted(o[2:].split(","))) if o[2:] else "", ",".join(real_w)))
+
     def do_write(self, s):
-        full = self.full(unhx(s["path"]))
+        p = unhx(s["path"])
+        full = self.full(p)
+        before = self.snapshot().get(p)
+        simple = before is not None and before["kind"] != "l" and s.get("tag", "").startswith("modify")
         self._clear(full)
         with open(full, "wb") as f:
             f.write(content_of(s["content"]))
         os.chmod(full, s.get("mode", 0o755 if s["kind"] == "x" else 0o644))
         self.touch(full)
         self.fs_dirty = True
+        self.edit_tok("e_modify" if simple else "e_create", p)
 
     def do_symlink(self, s):
         full = self.full(unhx(s["path"]))
@@ -635,25 +651,30 @@ class Scen:
                 os.symlink(b"/nonexistent-c18/loop-avoided", full)
         self.touch(full)
         self.fs_dirty = True
+        self.edit_tok("e_create", unhx(s["path"]))
 
     def do_chmod(self, s):
         full = self.full(unhx(s["path"]))
         os.chmod(full, s["mode"])
         self.fs_dirty = True
+        self.edit_tok("e_chmod", unhx(s["path"]))
 
     def do_unlink(self, s):
         os.unlink(self.full(unhx(s["path"])))
         self.fs_dirty = True
+        self.edit_tok("e_delete", unhx(s["path"]), with_file=False)
 
     def do_rmtree(self, s):
         shutil.rmtree(self.full(unhx(s["path"])))
         self.fs_dirty = True
+        self.edit_tok("e_rmtree", unhx(s["path"]), with_file=False)
 
     def do_mkdir(self, s):
         full = self.full(unhx(s["path"]))
         self._clear(full)
         os.mkdir(full)
         self.fs_dirty = True
+        self.edit_tok("e_mkdir", unhx(s["path"]), with_file=False)
 
     def _index_op(self, name, tokname, fn, path=None):
         self.sync_model_wd([path] if path is not None else [])
@@ -814,6 +835,7 @@ NAMES_UTF8 = ["é".encode(), "日本語".encode(), "\U0001F600".encode(), "ü-be
               "Ångström".encode()]
 NAMES_NONUTF8 = [b"\xff\xfe", b"caf\xe9", b"\x80abc", b"tr\xc3", b"\xed\xa0\x80", b"\xc0\xaf", b"\xf5x", b"ok\xf0\x9f"]
 NAME_LONG = b"L" * 200
+BIG_SIZES = [70_000, 300_000, 1_100_000]      # thorough adds 9 MB
 
 
 def gen_name(rng, profile):
@@ -838,7 +860,7 @@ def gen_content(rng, big_ok=False):
     if r < 0.25:
         return {"hex": hx(rng.choice([b"shared\n", b"x", b"line1\r\nline2\r\n", b"\x00\x01\x02bin\x00"]))}
     if big_ok and r < 0.32:
-        return {"rand": [rng.randrange(10 ** 6), rng.choice([70_000, 300_000, 1_100_000])]}
+        return {"rand": [rng.randrange(10 ** 6), rng.choice(BIG_SIZES)]}
     return {"hex": hx(rng.randbytes(rng.choice([1, 2, 5, 17, 64, 300, 4096])))}
 
 
@@ -1031,7 +1053,7 @@ def _stream_changes(ctx):
     rng = ctx.rng
     store = MemoryObjectStore()
     lines, reals = [], []
-    for i in range(ctx.budget(150)):
+    for i in range(ctx.budget(150, mult=20)):
         profile = rng.choice(["plain", "wild"])
         a = gen_tree(rng, profile, n=rng.choice([0, 1, 3, 6, 10]))
         b = mutate_tree(rng, profile, a) if rng.random() < 0.8 else gen_tree(rng, profile, n=rng.choice([0, 2, 5]))
@@ -1060,7 +1082,7 @@ def _stream_changes(ctx):
 def _stream_roundtrip(ctx, batch, n=None, stream="roundtrip"):
     """(a) checkout -> files match the tree, status clean, add + Index.commit reproduces the tree id."""
     rng = ctx.rng
-    n = ctx.budget(45) if n is None else n
+    n = ctx.budget(45, mult=20) if n is None else n
     for i in range(n):
         profile = rng.choice(["plain", "wild", "wild"])
         ents = gen_tree(rng, profile, big_ok=True)
@@ -1210,7 +1232,7 @@ def _pick_edit(rng, sc: Scen, profile):
 def _stream_edits(ctx, batch, n=None, stream="edits"):
     """(b) random edit sequences between status calls: model vs porcelain.status vs three-way oracle vs git."""
     rng = ctx.rng
-    n = ctx.budget(40) if n is None else n
+    n = ctx.budget(40, mult=25) if n is None else n
     for i in range(n):
         profile = rng.choice(["plain", "plain", "wild"])
         ents = gen_tree(rng, profile, n=rng.choice([1, 3, 5, 8, 12]))
@@ -1220,7 +1242,7 @@ def _stream_edits(ctx, batch, n=None, stream="edits"):
             sc.exec({"op": "fresh", "tree": "t"})
             if sc.failed:
                 continue
-            steps = rng.choice([4, 8, 14])
+            steps = rng.choice([4, 8, 14, 30] if ctx.thorough else [4, 8, 14])
             for j in range(steps):
                 for _ in range(rng.choice([1, 1, 2, 3])):
                     e = _pick_edit(rng, sc, profile)
@@ -1283,7 +1305,7 @@ def _stream_switch(ctx, batch, stream="switch"):
                 k += 1
                 _switch_case(ctx, batch, stream, SWITCH_SET[a], SWITCH_SET[b], f"{a}->{b}", git=(k % 5 == 0) or ctx.thorough)
                 ctx.count(stream, (a, b), True, "fixed-pair")
-    for i in range(ctx.budget(25)):
+    for i in range(ctx.budget(25, mult=20)):
         profile = rng.choice(["plain", "wild"])
         a = gen_tree(rng, profile, n=rng.choice([1, 3, 6, 10]))
         b = mutate_tree(rng, profile, a)
@@ -1448,6 +1470,8 @@ def run(ctx: core.Ctx):
         "what Path.resolve() makes of each symbolic link (LinkRes) and every stat key are observations supplied by the "
         "harness from the real file system (os.path.realpath / os.lstat), not computed by the model",
     ]
+    if ctx.thorough and 9_000_000 not in BIG_SIZES:
+        BIG_SIZES.append(9_000_000)
     batch = Batch(ctx)
     _stream_modes(ctx)
     _stream_changes(ctx)
